@@ -219,6 +219,11 @@ where
     )
 }
 
+fn unicode_width(c: char) -> usize {
+    // the crate's Display uses unicode_width; only boundary safety matters to the checks
+    c.len_utf8().min(2)
+}
+
 fn env_of(s: &S) -> Result<MarkerEnvironment, String> {
     let l = s.list();
     let v: Vec<String> = l.iter().map(|x| x.string()).collect();
@@ -663,6 +668,29 @@ impl St {
                     }
                 }
                 S::tag("ok", vec![S::bool(cross), S::l(results.iter().map(|r| S::l(r.as_ref().unwrap().0.clone())).collect())])
+            }
+            "cc" => {
+                let c = char::from_u32(l[1].num() as u32).expect("harness: code point");
+                S::tag("ok", vec![S::bool(c.is_whitespace()), S::bool(c.is_alphabetic()), S::bool(c.is_alphanumeric()),
+                                  S::a(c.len_utf8()), S::a(unicode_width(c))])
+            }
+            "specpat" | "specver" => {
+                let o = match l[1].atom() {
+                    "eq" => pep440_rs::Operator::Equal, "ne" => pep440_rs::Operator::NotEqual,
+                    "gt" => pep440_rs::Operator::GreaterThan, "ge" => pep440_rs::Operator::GreaterThanEqual,
+                    "lt" => pep440_rs::Operator::LessThan, "le" => pep440_rs::Operator::LessThanEqual,
+                    "tilde" => pep440_rs::Operator::TildeEqual, x => panic!("harness: operator {x}"),
+                };
+                let t = l[2].string();
+                let r = if op == "specpat" {
+                    pep440_rs::VersionPattern::from_str(&t).ok().and_then(|p| VersionSpecifier::from_pattern(o, p).ok())
+                } else {
+                    Version::from_str(&t).ok().and_then(|v| VersionSpecifier::from_version(o, v).ok())
+                };
+                match r {
+                    Some(sp) => S::tag("ok", vec![specifier(&sp)]),
+                    None => S::a("err"),
+                }
             }
             "ping" => S::a("pong"),
             _ => S::tag("unknown-op", vec![S::a(op)]),
